@@ -123,14 +123,47 @@ async fn run_script(txs: &[Vec<(String, String)>], segment: usize, reopen: bool)
     None
 }
 
+/// C01 / U12w: with a long sync interval an append is acknowledged only after the periodic fsync; the append that rolls the
+/// segment over lands in the fresh segment and must wait for that segment's fsync as well. Returns the acknowledgement
+/// latencies (ms) of the first append and of the append that triggered the rollover. Payloads are incompressible so that the
+/// stored sizes (70 KiB + 62 KiB > 128 KiB segment) really force the rollover.
+async fn rollover_ack_latency(sync_ms: u64) -> Result<(u128, u128), String> {
+    let dir = tempfile::tempdir().map_err(|e| e.to_string())?;
+    let db = DatabaseBuilder::new().segment_size_bytes(128 * 1024).total_buckets(1).bucket_ids_from_range(0..1)
+        .sync_interval(std::time::Duration::from_millis(sync_ms)).sync_idle_interval(std::time::Duration::from_millis(sync_ms / 2)).max_batch_size(1_000_000).min_sync_bytes(usize::MAX / 2)
+        .open(dir.path()).map_err(|e| e.to_string())?;
+    let key = Uuid::from_u128(0x1234_5678_9abc_def0_1122_3344_5566_7788);
+    let hash = uuid_to_partition_hash(key);
+    let mk = |n: u64, kib: usize| {
+        let mut x: u64 = 0x9E37_79B9_7F4A_7C15 ^ n;
+        let payload: Vec<u8> = (0..kib * 1024).map(|_| { x ^= x << 13; x ^= x >> 7; x ^= x << 17; (x >> 24) as u8 }).collect();
+        let mut evs = smallvec::SmallVec::<[NewEvent; 4]>::new();
+        evs.push(NewEvent { event_id: uuid_v7_with_partition_hash(hash), stream_id: StreamId::new("big").unwrap(), stream_version: ExpectedVersion::Any, event_name: "e".into(), timestamp: 1, metadata: vec![], payload });
+        Transaction::new(key, 0, evs).unwrap()
+    };
+    let t0 = std::time::Instant::now();
+    let r1 = db.append_events(mk(1, 70)).await.map_err(|e| e.to_string())?;
+    let first = t0.elapsed().as_millis();
+    let t1 = std::time::Instant::now();
+    let r2 = db.append_events(mk(2, 62)).await.map_err(|e| e.to_string())?;
+    let second = t1.elapsed().as_millis();
+    if r2.offsets.first() != r1.offsets.first() { return Err("the second append did not roll the segment over".into()); }
+    Ok((first, second))
+}
+
 fn txs_of(v: &Value) -> Vec<Vec<(String, String)>> {
     v.as_array().map(|a| a.iter().map(|t| t.as_array().map(|es| es.iter().map(|e| (e[0].as_str().unwrap_or("s").to_string(), e[1].as_str().unwrap_or("any").to_string())).collect()).unwrap_or_default()).collect()).unwrap_or_default()
 }
 
 fn block_on<T>(f: impl std::future::Future<Output = T>) -> T { tokio::runtime::Builder::new_multi_thread().worker_threads(2).enable_all().build().unwrap().block_on(f) }
 
-pub fn search(_item: &str, seed: u64, _hint: &Value) -> Option<(Value, String)> {
+pub fn search(item: &str, seed: u64, _hint: &Value) -> Option<(Value, String)> {
     let mut rng = Rng::new(seed);
+    if item.contains("rollover") {
+        if let Ok(Ok((first, second))) = guarded(|| block_on(rollover_ack_latency(1500))) {
+            if second * 4 < first { return Some((json!({"kind": "rollover_ack", "sync_ms": 1500}), format!("with a 1500 ms sync interval the first append was acknowledged after {first} ms (it waited for the periodic fsync) but the append that rolled the segment over was acknowledged after {second} ms: it was released by the sealed segment's watermark before its own fsync"))); }
+        }
+    }
     let mk = |txs: &Vec<Vec<(String, String)>>, seg: usize, reopen: bool| json!({"txs": txs.iter().map(|t| t.iter().map(|(s, e)| json!([s, e])).collect::<Vec<_>>()).collect::<Vec<_>>(), "segment": seg, "reopen": reopen});
     let mut scripts: Vec<(Vec<Vec<(String, String)>>, usize, bool)> = vec![];
     let s = |x: &str, e: &str| (x.to_string(), e.to_string());
@@ -152,6 +185,12 @@ pub fn search(_item: &str, seed: u64, _hint: &Value) -> Option<(Value, String)> 
     None
 }
 pub fn run(_item: &str, input: &Value) -> Option<String> {
+    if input["kind"].as_str() == Some("rollover_ack") {
+        return match guarded(|| block_on(rollover_ack_latency(input["sync_ms"].as_u64().unwrap_or(1500)))) {
+            Ok(Ok((first, second))) if second * 4 < first => Some(format!("first append acknowledged after {first} ms (periodic fsync), the append that rolled the segment over after {second} ms: acknowledged before its fsync")),
+            _ => None,
+        };
+    }
     let txs = txs_of(&input["txs"]);
     match guarded(|| block_on(run_script(&txs, input["segment"].as_u64().unwrap_or(131072) as usize, input["reopen"].as_bool().unwrap_or(false)))) { Ok(r) => r, Err(p) => Some(format!("panicked: {p}")) }
 }
